@@ -44,6 +44,12 @@ impl<Ctx> Bundle<Ctx> for ColourEncoding {
                 };
                 let tf = TransferFunction::parse(bitstream, ())?;
                 let rendering_intent = bitstream.read_enum::<RenderingIntent>()?;
+                // There's no ICC profile to consult, so the enum values need to be known.
+                if colour_space == ColourSpace::Unknown || matches!(tf, TransferFunction::Unknown) {
+                    return Err(Error::ValidationFailed(
+                        "Unknown colour space or transfer function without ICC profile",
+                    ));
+                }
                 Self::Enum(EnumColourEncoding {
                     colour_space,
                     white_point,
